@@ -301,13 +301,25 @@ impl Drop for Cqueue {
         //     return;
         // }
 
-        // run the rest event
+        // run the rest event, with the cancel disabled: a canceled owner would
+        // not block in poll but spin here and starve the select coroutines
+        let cancel = if crate::coroutine_impl::is_coroutine() {
+            Some(crate::coroutine_impl::current_cancel_data())
+        } else {
+            None
+        };
+        if let Some(c) = cancel {
+            c.disable_cancel();
+        }
         loop {
             match self.poll(None) {
                 Ok(_) => {}
                 Err(_e @ PollError::Finished) => break,
                 _ => unreachable!("cqueue drop unreachable"),
             }
+        }
+        if let Some(c) = cancel {
+            c.enable_cancel();
         }
         // we are sure that all the coroutines are finished
     }
